@@ -761,6 +761,7 @@ func TestVerifStandin_C08_DecodersTotal(t *testing.T) {
 	defer debug.SetGCPercent(debug.SetGCPercent(400))
 	sw := &c08Sweep{t: t, stat: newVhStat("c08_decoders_total"), okCount: map[string]int{}, errCount: map[string]int{},
 		fails: newVhFailures("rc_type_list_incomplete")}
+	defer sw.stat.print()
 	targets := c08Targets()
 
 	// the hand-collected list covers the package
@@ -973,5 +974,4 @@ func TestVerifStandin_C08_DecodersTotal(t *testing.T) {
 	}
 	t.Logf("targets for which no input decoded successfully: %d", neverOK)
 	sw.fails.report(t)
-	sw.stat.print()
 }
